@@ -38,7 +38,7 @@ func (cf *coverFn) rangesOver(within ast.Node, pred func(e ast.Expr) bool) []*as
 	}
 	var out []*ast.RangeStmt
 	ast.Inspect(within, func(n ast.Node) bool {
-		if rs, ok := n.(*ast.RangeStmt); ok && ast.Node(rs) != within && pred(unparen(rs.X)) {
+		if rs, ok := n.(*ast.RangeStmt); ok && ast.Node(rs) != within && (pred(unparen(rs.X)) || pred(cf.resolve(rs.X))) {
 			out = append(out, rs)
 		}
 		return true
@@ -561,4 +561,54 @@ func displayNameRuleFor(c *Ctx, r *Report, clause string, gen, rem *FuncRef) {
 	r.Check(why == "", clause, "R1 PROVENANCE", key, c.pos(rem.Decl.Pos()),
 		fmt.Sprintf("genTempName prepends %q; RemoveTempName tests for that prefix and removes exactly its %d bytes: a literal is displayed with its own character(s), every other name unchanged", prefix, len(prefix)),
 		"the displayed name of a character-literal token is not the literal: "+why)
+}
+
+// collectsInto: every iteration of rs contributes exactly one entry to the slice X, taken from the element:
+//
+//	X = append(X, node)                      at the top level of the body, or
+//	X[k] = node  with k the range key of a slice range and X := make([]T, len(<the ranged sequence>)).
+//
+// isNode decides whether the stored expression is the wanted function of the element.
+func (cf *coverFn) collectsInto(rs *ast.RangeStmt, xObj types.Object, isNode func(e ast.Expr) bool) bool {
+	if xObj == nil {
+		return false
+	}
+	info := cf.info
+	for _, bs := range rs.Body.List {
+		as, ok := bs.(*ast.AssignStmt)
+		if !ok || len(as.Lhs) != 1 || len(as.Rhs) != 1 {
+			continue
+		}
+		if identObj(info, as.Lhs[0]) == xObj {
+			if call, ok := unparen(as.Rhs[0]).(*ast.CallExpr); ok && builtinName(info, call) == "append" && len(call.Args) == 2 && identObj(info, call.Args[0]) == xObj && isNode(call.Args[1]) {
+				return true
+			}
+			continue
+		}
+		ix, ok := unparen(as.Lhs[0]).(*ast.IndexExpr)
+		if !ok || as.Tok != token.ASSIGN || identObj(info, ix.X) != xObj || rs.Key == nil || identObj(info, ix.Index) == nil || identObj(info, ix.Index) != identObj(info, rs.Key) || !isNode(as.Rhs[0]) {
+			continue
+		}
+		if _, isSlice := info.TypeOf(rs.X).Underlying().(*types.Slice); !isSlice {
+			continue
+		}
+		// X := make([]T, len(R)) with R the ranged sequence
+		if cf.defs.count[xObj] != 1 {
+			continue
+		}
+		mk, ok := unparen(cf.defs.single[xObj]).(*ast.CallExpr)
+		if !ok || builtinName(info, mk) != "make" || len(mk.Args) != 2 {
+			continue
+		}
+		ln, ok := unparen(mk.Args[1]).(*ast.CallExpr)
+		if !ok || builtinName(info, ln) != "len" || len(ln.Args) != 1 {
+			continue
+		}
+		if exprString(unparen(ln.Args[0])) == exprString(unparen(rs.X)) {
+			if o := identObj(info, rs.X); o == nil || cf.defs.count[o] == 1 {
+				return true
+			}
+		}
+	}
+	return false
 }
